@@ -26,6 +26,8 @@ def render(O, v, items, level, tv, lines):
             lines.append(f'{pad}{it[1]} float = {O.lit(getattr(v, it[2]))}')
         elif it[0] == 'mod':
             lines.append(f'{pad}{it[1]} = {O.lit(getattr(v, it[2]))}')
+        elif it[0] == 'ref':            # a node whose value is a reference to / an expression over an earlier node
+            lines.append(f'{pad}{it[1]} float = ' + ('{?' + it[2] + '}' if it[3] == 'ref' else '("{?' + it[2] + '} + 1")'))
         elif it[0] == 'group':          # a group header line (no type, no value) with children one level deeper
             lines.append(f'{pad}{it[1]}')
             for child, x in it[2]:
@@ -45,6 +47,9 @@ def expected(v, items, tv, active, acc):
         if it[0] in ('node', 'mod'):
             if active:
                 acc[it[1]] = getattr(v, it[2])
+        elif it[0] == 'ref':
+            if active:
+                acc[it[1]] = acc[it[2]] if it[3] == 'ref' else acc[it[2]] + 1
         elif it[0] == 'group':
             if active:
                 for child, x in it[2]:
@@ -164,6 +169,10 @@ CURATED = [
     ('three blocks deep, closed by @end', [('block', [('case', 'c1', [N('a', 'x1'), ('block', [('case', 'c2', [N('b', 'x2'), ('block', [('case', 'c3', [N('c', 'x3')]), ('else', None, [N('c2', 'x4')])], 'end'), N('b2', 'x5')])], 'end'), N('a2', 'x6')])], 'end'), N('o', 'x7')]),
     ('three blocks deep, closed by de-indentation', [('block', [('case', 'c1', [('block', [('case', 'c2', [('block', [('case', 'c3', [N('c', 'x1')])], 'dedent'), N('b', 'x2')])], 'dedent'), N('a', 'x3')])], 'dedent'), N('o', 'x4')]),
     ('three blocks deep inside an else', [('block', [('case', 'c1', [N('a', 'x1')]), ('else', None, [('block', [('case', 'c2', [('block', [('case', 'c3', [N('c', 'x2')]), ('case', 'c4', [N('d', 'x3')])], 'end')]), ('else', None, [N('e', 'x4')])], 'end')])], 'end'), N('o', 'x5')]),
+    ('a reference closes a block by indentation', [N('a', 'x1'), ('block', [('case', 'c1', [N('h', 'x2')])], 'dedent'), ('ref', 'b', 'a', 'ref'), N('z', 'x3')]),
+    ('an expression closes a block by indentation', [N('a', 'x1'), ('block', [('case', 'c1', [N('h', 'x2')]), ('case', 'c2', [N('k', 'x3')])], 'dedent'), ('ref', 'b', 'a', 'expr')]),
+    ('a reference closes two nested blocks at once', [N('a', 'x1'), ('block', [('case', 'c1', [('block', [('case', 'c2', [N('i', 'x2')])], 'dedent')])], 'dedent'), ('ref', 'b', 'a', 'ref')]),
+    ('a reference inside a clause and one closing it', [N('a', 'x1'), ('block', [('case', 'c1', [('ref', 'p', 'a', 'expr')]), ('else', None, [('ref', 'q', 'a', 'ref')])], 'dedent'), ('ref', 'b', 'a', 'expr')]),
     ('empty-ish: only else selected branch has nodes', [('block', [('case', 'c1', []), ('else', None, [N('e', 'x1')])], 'dedent'), N('o', 'x2')]),
 ]
 
@@ -203,6 +212,8 @@ def _vals(items):
     for it in items:
         if it[0] in ('node', 'mod'):
             yield it[2]
+        elif it[0] == 'ref':
+            pass
         elif it[0] == 'group':
             for child, x in it[2]:
                 yield x
@@ -216,6 +227,8 @@ def _brief(items):
     for it in items:
         if it[0] in ('node', 'mod'):
             out.append(it[1] + ('=' if it[0] == 'mod' else ''))
+        elif it[0] == 'ref':
+            out.append(it[1] + '<-' + it[2])
         elif it[0] == 'group':
             out.append(it[1] + '[' + ','.join(c for c, _ in it[2]) + ']')
         else:
